@@ -24,7 +24,25 @@ type fsState struct {
 	nodes map[string]*fsNode
 	log   []string
 	tmpN  int
+	muts  int // mutations so far
+	crashAt int // -1: no crash point armed
 	open  map[*value]*fsOpen // files handed out by os.CreateTemp / os.Open
+}
+
+// mut records a mutation that has happened. With a crash point armed
+// (symx.FSCrashAfter), the mutation that would exceed it does not happen:
+// fsCrashCheck, called first by every mutating operation, ends the "process"
+// with a Go panic that the harness recovers.
+func (fs *fsState) mut(op string) {
+	fs.log = append(fs.log, op)
+	fs.muts++
+}
+
+func (fs *fsState) crashCheck() {
+	if fs.crashAt >= 0 && fs.muts >= fs.crashAt {
+		fs.crashAt = -1
+		panic(targetPanic{iface{t: types.Typ[types.String], v: "symx: process killed"}})
+	}
 }
 
 type fsOpen struct {
@@ -62,7 +80,7 @@ func (i *interpreter) openFile(v value) (*fsOpen, *fsNode) {
 
 func (ex *Exec) fsm() *fsState {
 	if ex.fs == nil {
-		ex.fs = &fsState{nodes: map[string]*fsNode{"/": {dir: true}, "/tmp": {dir: true}, "/cwd": {dir: true}, "/fsroot": {dir: true}}}
+		ex.fs = &fsState{crashAt: -1, nodes: map[string]*fsNode{"/": {dir: true}, "/tmp": {dir: true}, "/cwd": {dir: true}, "/fsroot": {dir: true}}}
 		ex.noteOnce("file system and environment are an in-engine model (directories, files with contents; no permissions, symlinks or partial writes)")
 	}
 	return ex.fs
@@ -129,16 +147,18 @@ func init() {
 		},
 		"os.MkdirAll": func(fr *frame, args []value) value {
 			fs := fr.i.ex.fsm()
+			fs.crashCheck()
 			p := fsPath(args[0])
 			if n, ok := fs.nodes[p]; ok && !n.dir {
 				return fr.i.fsErr("ErrExist")
 			}
 			fs.mkdirAll(p)
-			fs.log = append(fs.log, "mkdirall "+p)
+			fs.mut("mkdirall "+p)
 			return noErr()
 		},
 		"os.Mkdir": func(fr *frame, args []value) value {
 			fs := fr.i.ex.fsm()
+			fs.crashCheck()
 			p := fsPath(args[0])
 			if _, ok := fs.nodes[p]; ok {
 				return fr.i.fsErr("ErrExist")
@@ -147,11 +167,12 @@ func init() {
 				return fr.i.fsErr("ErrNotExist")
 			}
 			fs.nodes[p] = &fsNode{dir: true}
-			fs.log = append(fs.log, "mkdir "+p)
+			fs.mut("mkdir "+p)
 			return noErr()
 		},
 		"os.MkdirTemp": func(fr *frame, args []value) value {
 			fs := fr.i.ex.fsm()
+			fs.crashCheck()
 			dir := argString(args[0])
 			if dir == "" {
 				dir = "/tmp"
@@ -167,13 +188,14 @@ func init() {
 			}
 			p := filepath.Join(fsPath(dir), name)
 			fs.mkdirAll(p)
-			fs.log = append(fs.log, "mkdirtemp "+p)
+			fs.mut("mkdirtemp "+p)
 			return tuple{p, noErr()}
 		},
 		"os.RemoveAll": func(fr *frame, args []value) value {
 			fs := fr.i.ex.fsm()
+			fs.crashCheck()
 			p := fsPath(args[0])
-			fs.log = append(fs.log, "removeall "+p)
+			fs.mut("removeall "+p)
 			if p == "" {
 				return noErr() // os.RemoveAll("") is a silent no-op
 			}
@@ -186,6 +208,7 @@ func init() {
 		},
 		"os.Remove": func(fr *frame, args []value) value {
 			fs := fr.i.ex.fsm()
+			fs.crashCheck()
 			p := fsPath(args[0])
 			if _, ok := fs.nodes[p]; !ok {
 				return fr.i.fsErr("ErrNotExist")
@@ -196,7 +219,7 @@ func init() {
 				}
 			}
 			delete(fs.nodes, p)
-			fs.log = append(fs.log, "remove "+p)
+			fs.mut("remove "+p)
 			return noErr()
 		},
 		"os.ReadDir": func(fr *frame, args []value) value {
@@ -233,12 +256,53 @@ func init() {
 			if n, ok := fs.nodes[p]; ok && n.dir {
 				return fr.i.fsErr("ErrInvalid")
 			}
-			fs.nodes[p] = &fsNode{data: append([]value(nil), args[1].([]value)...)}
-			fs.log = append(fs.log, "write "+p)
+			// like the real one: create or truncate, then write
+			fs.crashCheck()
+			fs.nodes[p] = &fsNode{}
+			fs.mut("truncate " + p)
+			if data := args[1].([]value); len(data) > 0 {
+				fs.crashCheck()
+				fs.nodes[p] = &fsNode{data: append([]value(nil), data...)}
+				fs.mut("write " + p)
+			}
+			return noErr()
+		},
+		"os.Create": func(fr *frame, args []value) value {
+			fs := fr.i.ex.fsm()
+			p := fsPath(args[0])
+			if n, ok := fs.nodes[filepath.Dir(p)]; !ok || !n.dir {
+				return tuple{(*value)(nil), fr.i.fsErr("ErrNotExist")}
+			}
+			if n, ok := fs.nodes[p]; ok && n.dir {
+				return tuple{(*value)(nil), fr.i.fsErr("ErrInvalid")}
+			}
+			fs.crashCheck()
+			fs.nodes[p] = &fsNode{}
+			fs.mut("truncate " + p)
+			return tuple{fr.i.newFile(p), noErr()}
+		},
+		"os.Rename": func(fr *frame, args []value) value {
+			fs := fr.i.ex.fsm()
+			from, to := fsPath(args[0]), fsPath(args[1])
+			n, ok := fs.nodes[from]
+			if !ok {
+				return fr.i.fsErr("ErrNotExist")
+			}
+			if n.dir {
+				unmodelled("os.Rename of a directory")
+			}
+			if d, ok := fs.nodes[filepath.Dir(to)]; !ok || !d.dir {
+				return fr.i.fsErr("ErrNotExist")
+			}
+			fs.crashCheck()
+			delete(fs.nodes, from)
+			fs.nodes[to] = n // atomic replacement
+			fs.mut("rename " + from + " " + to)
 			return noErr()
 		},
 		"os.CreateTemp": func(fr *frame, args []value) value {
 			fs := fr.i.ex.fsm()
+			fs.crashCheck()
 			dir := fsPath(args[0])
 			if args[0].(string) == "" {
 				dir = "/tmp"
@@ -254,7 +318,7 @@ func init() {
 			}
 			p := filepath.Join(dir, name)
 			fs.nodes[p] = &fsNode{}
-			fs.log = append(fs.log, "create "+p)
+			fs.mut("create "+p)
 			return tuple{fr.i.newFile(p), noErr()}
 		},
 		"os.Open": func(fr *frame, args []value) value {
@@ -302,6 +366,16 @@ func init() {
 			return tuple{append([]value(nil), n.data...), noErr()}
 		},
 		// symx helpers to set up and inspect the model
+		symxPath + ".FSCrashAfter": func(fr *frame, args []value) value {
+			fs := fr.i.ex.fsm()
+			n := int(asInt64(args[0]))
+			if n < 0 {
+				fs.crashAt = -1
+			} else {
+				fs.crashAt = fs.muts + n
+			}
+			return nil
+		},
 		symxPath + ".FSRoot": func(fr *frame, args []value) value { fr.i.ex.fsm(); return "/fsroot" },
 		symxPath + ".FSMkdir": func(fr *frame, args []value) value {
 			fr.i.ex.fsm().mkdirAll(fsPath(args[0]))
@@ -356,10 +430,42 @@ func init() {
 func fsStat(fr *frame, args []value) value {
 	fs := fr.i.ex.fsm()
 	p := fsPath(args[0])
-	if _, ok := fs.nodes[p]; !ok {
+	n, ok := fs.nodes[p]
+	if !ok {
 		return tuple{iface{}, fr.i.fsErr("ErrNotExist")}
 	}
-	return tuple{iface{}, noErr()} // the FileInfo itself is not modelled
+	return tuple{fr.i.fileInfo(filepath.Base(p), n), noErr()}
+}
+
+// fileInfo builds an *os.fileStat (the real type, so its real methods run)
+// carrying name, size and the directory bit.
+func (i *interpreter) fileInfo(name string, n *fsNode) value {
+	pkg := i.prog.ImportedPackage("os")
+	if pkg == nil || pkg.Type("fileStat") == nil {
+		return iface{}
+	}
+	named := pkg.Type("fileStat").Type()
+	st, ok := named.Underlying().(*types.Struct)
+	if !ok {
+		return iface{}
+	}
+	v := zero(st).(structure)
+	for k := 0; k < st.NumFields(); k++ {
+		switch st.Field(k).Name() {
+		case "name":
+			v[k] = name
+		case "size":
+			v[k] = int64(len(n.data))
+		case "mode":
+			mode := uint32(0o644)
+			if n.dir {
+				mode = 1<<31 | 0o755 // fs.ModeDir
+			}
+			v[k] = mode
+		}
+	}
+	var cell value = v
+	return iface{t: types.NewPointer(named), v: &cell}
 }
 
 var _ = types.Typ
